@@ -21,67 +21,74 @@ Fixpoint ehist_ok (c : cfg) (lc : lcfg) (ec : ecfg) (e : estate) (ops : list eop
   | o :: r => eop_ok e o /\ ehist_ok c lc ec (estep c lc ec e o) r
   end.
 
+(* [Pair c e e']: the books invariant holds after the step(s) and the supply invariant is carried over *)
+Definition Pair (c : cfg) (e e' : estate) : Prop := InvE c e' /\ forall ext, InvE02 c ext e -> InvE02 c ext e'.
 Definition Both (c : cfg) (ext : Z -> Z) (e : estate) : Prop := InvE c e /\ InvE02 c ext e.
+Lemma pair_refl c e : InvE c e -> Pair c e e.
+Proof. intros I. split; [exact I|intros ext J; exact J]. Qed.
+Lemma pair_trans c e e1 e2 : Pair c e e1 -> Pair c e1 e2 -> Pair c e e2.
+Proof. intros [I1 J1] [I2 J2]. split; [exact I2|intros ext J; exact (J2 ext (J1 ext J))]. Qed.
 
-Lemma try_step_both c ext cond f k e : Both c ext e ->
-  (forall x x', InvE c x -> f x = Ok x' -> InvE c x' /\ (forall ext', InvE02 c ext' x -> InvE02 c ext' x')) ->
-  (forall x, Both c ext x -> Both c ext (k x)) -> Both c ext (try_step cond f k e).
+Lemma try_step_pair c cond f k e : InvE c e -> (forall x x', InvE c x -> f x = Ok x' -> Pair c x x') ->
+  (forall x, InvE c x -> Pair c x (k x)) -> Pair c e (try_step cond f k e).
 Proof.
-  intros B Hf Hk. unfold try_step. destruct cond; [|apply Hk; exact B].
-  destruct (f e) as [e'| |] eqn:F; try exact B. destruct (Hf e e' (proj1 B) F) as [I J]. apply Hk. split; [exact I|exact (J ext (proj2 B))].
+  intros I Hf Hk. unfold try_step. destruct cond; [|apply Hk; exact I].
+  destruct (f e) as [e'| |] eqn:F; try (apply pair_refl; exact I). pose proof (Hf e e' I F) as P1. exact (pair_trans c e e' _ P1 (Hk e' (proj1 P1))).
 Qed.
 
-Lemma begin_app_both c lc ec ext fees e app : cfg_ok c -> roles_ok c -> Both c ext e -> Both c ext (begin_app c lc ec fees e app).
+Lemma begin_app_pair c lc ec fees e app : cfg_ok c -> roles_ok c -> InvE c e -> Pair c e (begin_app c lc ec fees e app).
 Proof.
-  intros CK RO B. unfold begin_app. cbv zeta.
-  destruct (negb (EsmLife.ef_found (eflags e app))); [exact B|]. destruct (negb (e_status (esm (vs (el e)) app))); [exact B|].
-  apply try_step_both; [exact B|intros x x' I H; exact (snapshot_invE c ec x app x' I H)|]. intros e1 B1.
-  destruct ((now (vs (el e1)) >? e_end (esm (vs (el e)) app)) && e_snap (esm (vs (el e)) app)); [|exact B1].
-  apply try_step_both; [exact B1|intros x x' I H; exact (e_vault_invE c lc x app x' CK RO I H)|]. intros e2 B2.
-  apply try_step_both; [exact B2|intros x x' I H; exact (e_stable_invE c lc x app x' CK RO I H)|]. intros e3 B3.
-  apply try_step_both; [exact B3|intros x x' I H; exact (e_collector_invE c lc ec x app _ x' I H)|]. intros e4 B4.
-  apply try_step_both; [exact B4|intros x x' I H; exact (e_share_invE c lc ec x app x' I H)|]. intros e5 B5. exact B5.
+  intros CK RO I. unfold begin_app. cbv zeta.
+  destruct (negb (EsmLife.ef_found (eflags e app))); [apply pair_refl; exact I|]. destruct (negb (e_status (esm (vs (el e)) app))); [apply pair_refl; exact I|].
+  apply try_step_pair; [exact I|intros x x' Ix H; exact (snapshot_invE c ec x app x' Ix H)|]. intros e1 I1.
+  destruct ((now (vs (el e1)) >? e_end (esm (vs (el e)) app)) && e_snap (esm (vs (el e)) app)); [|apply pair_refl; exact I1].
+  apply try_step_pair; [exact I1|intros x x' Ix H; exact (e_vault_invE c lc x app x' CK RO Ix H)|]. intros e2 I2.
+  apply try_step_pair; [exact I2|intros x x' Ix H; exact (e_stable_invE c lc x app x' CK RO Ix H)|]. intros e3 I3.
+  apply try_step_pair; [exact I3|intros x x' Ix H; exact (e_collector_invE c lc ec x app _ x' Ix H)|]. intros e4 I4.
+  apply try_step_pair; [exact I4|intros x x' Ix H; exact (e_share_invE c lc ec x app x' Ix H)|]. intros e5 I5. apply pair_refl; exact I5.
 Qed.
 
-Lemma begin_block_both c lc ec ext fees e : cfg_ok c -> roles_ok c -> Both c ext e -> Both c ext (begin_block c lc ec fees e).
+Lemma begin_block_pair c lc ec fees e : cfg_ok c -> roles_ok c -> InvE c e -> Pair c e (begin_block c lc ec fees e).
 Proof.
   intros CK RO. unfold begin_block. generalize (apps c) as al. intros al. revert e.
-  induction al as [|a al IH]; intros e B; cbn [fold_left]; [exact B|]. apply IH. apply begin_app_both; assumption.
+  induction al as [|a al IH]; intros e I; cbn [fold_left]; [apply pair_refl; exact I|].
+  pose proof (begin_app_pair c lc ec fees e a CK RO I) as P1. exact (pair_trans c _ _ _ P1 (IH _ (proj1 P1))).
 Qed.
 
-Theorem erun_both c lc ec ext e o e' : cfg_ok c -> roles_ok c -> eop_ok e o -> Both c ext e -> erun c lc ec e o = Ok e' -> Both c ext e'.
+Theorem erun_pair c lc ec e o e' : cfg_ok c -> roles_ok c -> eop_ok e o -> InvE c e -> erun c lc ec e o = Ok e' -> Pair c e e'.
 Proof.
-  intros CK RO Hok [I J] H.
-  assert (G : forall x, InvE c x /\ (forall ext', InvE02 c ext' e -> InvE02 c ext' x) -> Both c ext x).
-  { intros x [Ix Jx]. split; [exact Ix|exact (Jx ext J)]. }
+  intros CK RO Hok I H.
   destruct o as [o| | | | | | | | |]; cbn [erun eop_ok] in *.
   - destruct o as [o| | | | |app].
     + (* vault messages and the environment; a status record written by hand resets the step flags *)
       destruct Hok as [Hl He].
-      assert (K : forall l', lrun c lc (el e) (VOp o) = Ok l' -> Both c ext (set_el e l')).
-      { intros l' R. apply G. exact (elife_invE c lc e (VOp o) l' CK Hl He Logic.I I R). }
+      assert (K : forall l', lrun c lc (el e) (VOp o) = Ok l' -> Pair c e (set_el e l')).
+      { intros l' R. exact (elife_invE c lc e (VOp o) l' CK Hl He Logic.I I R). }
       destruct o; try (destruct (lrun c lc (el e) (VOp _)) as [l'| |] eqn:R; try discriminate H; injection H as <-; exact (K l' eq_refl)).
       destruct (lrun c lc (el e) (VOp _)) as [l'| |] eqn:R; try discriminate H. injection H as <-.
-      destruct (K l' eq_refl) as [I1 J1]. split; [apply invE_flags; exact I1|apply invE02_flags; exact J1].
+      destruct (K l' eq_refl) as [I1 J1]. split; [apply invE_flags; exact I1|intros ext J; apply invE02_flags; exact (J1 ext J)].
     + destruct Hok as [Hl He]. destruct (lrun c lc (el e) _) as [l'| |] eqn:R; try discriminate H. injection H as <-.
-      apply G. exact (elife_invE c lc e _ l' CK Hl He Logic.I I R).
+      exact (elife_invE c lc e _ l' CK Hl He Logic.I I R).
     + destruct Hok as [Hl He]. destruct (lrun c lc (el e) _) as [l'| |] eqn:R; try discriminate H. injection H as <-.
-      apply G. exact (elife_invE c lc e _ l' CK Hl He Logic.I I R).
+      exact (elife_invE c lc e _ l' CK Hl He Logic.I I R).
     + destruct Hok as [Hl He]. destruct (lrun c lc (el e) _) as [l'| |] eqn:R; try discriminate H. injection H as <-.
-      apply G. exact (elife_invE c lc e _ l' CK Hl He Logic.I I R).
+      exact (elife_invE c lc e _ l' CK Hl He Logic.I I R).
     + destruct Hok as [Hl He]. destruct (lrun c lc (el e) _) as [l'| |] eqn:R; try discriminate H. injection H as <-.
-      apply G. exact (elife_invE c lc e _ l' CK Hl He Logic.I I R).
-    + apply G. exact (e_vault_invE c lc e app e' CK RO I H).
-  - apply G. exact (deposit_invE c ec e from app denom amt e' (proj1 Hok) (proj2 Hok) I H).
-  - apply G. exact (execute_invE c ec e app e' I H).
-  - apply G. exact (redeem_invE c lc ec e from app denom amt e' (proj1 Hok) (proj2 Hok) I H).
-  - apply G. exact (snapshot_invE c ec e app e' I H).
-  - apply G. exact (e_vault_invE c lc e app e' CK RO I H).
-  - apply G. exact (e_stable_invE c lc e app e' CK RO I H).
-  - apply G. exact (e_collector_invE c lc ec e app fees e' I H).
-  - apply G. exact (e_share_invE c lc ec e app e' I H).
-  - injection H as <-. apply begin_block_both; [exact CK|exact RO|split; assumption].
+      exact (elife_invE c lc e _ l' CK Hl He Logic.I I R).
+    + exact (e_vault_invE c lc e app e' CK RO I H).
+  - exact (deposit_invE c ec e from app denom amt e' (proj1 Hok) (proj2 Hok) I H).
+  - exact (execute_invE c ec e app e' I H).
+  - exact (redeem_invE c lc ec e from app denom amt e' (proj1 Hok) (proj2 Hok) I H).
+  - exact (snapshot_invE c ec e app e' I H).
+  - exact (e_vault_invE c lc e app e' CK RO I H).
+  - exact (e_stable_invE c lc e app e' CK RO I H).
+  - exact (e_collector_invE c lc ec e app fees e' I H).
+  - exact (e_share_invE c lc ec e app e' I H).
+  - injection H as <-. apply begin_block_pair; assumption.
 Qed.
+
+Theorem erun_both c lc ec ext e o e' : cfg_ok c -> roles_ok c -> eop_ok e o -> Both c ext e -> erun c lc ec e o = Ok e' -> Both c ext e'.
+Proof. intros CK RO Hok [I J] H. destruct (erun_pair c lc ec e o e' CK RO Hok I H) as [I' J']. split; [exact I'|exact (J' ext J)]. Qed.
 
 Lemma estep_cases c lc ec e o : (exists e', erun c lc ec e o = Ok e' /\ estep c lc ec e o = e') \/ (is_ok (erun c lc ec e o) = false /\ estep c lc ec e o = e).
 Proof.
@@ -100,6 +107,15 @@ Proof.
   intros CK RO. induction ops as [|o ops IH]; intros e HO B; [exact B|].
   destruct HO as [Ho HO]. cbn [erun_all fold_left]. apply IH; [exact HO|].
   destruct (estep_cases c lc ec e o) as [(e' & H & ->)|[_ ->]]; [|exact B]. exact (erun_both c lc ec ext e o e' CK RO Ho B H).
+Qed.
+
+Theorem ehistory_pair c lc ec ops : cfg_ok c -> roles_ok c -> forall e, ehist_ok c lc ec e ops -> InvE c e -> Pair c e (erun_all c lc ec ops e).
+Proof.
+  intros CK RO. induction ops as [|o ops IH]; intros e HO I; [apply pair_refl; exact I|].
+  destruct HO as [Ho HO]. cbn [erun_all fold_left].
+  destruct (estep_cases c lc ec e o) as [(e' & H & E)|[_ E]]; rewrite E in *.
+  - pose proof (erun_pair c lc ec e o e' CK RO Ho I H) as P1. exact (pair_trans c _ _ _ P1 (IH e' HO (proj1 P1))).
+  - exact (IH e HO I).
 Qed.
 
 (* ---------- the initial state ---------- *)
@@ -265,4 +281,40 @@ Proof.
     - exact (IH e HO B N). }
   destruct (ehistory_both c lc ec ext ops CK RO e HO B) as [I' J']. intros d Hg.
   destruct (invE02_backing c ext _ I' J' d) as (H1 & _ & _). rewrite (proj2 G d), Hg in H1. lia.
+Qed.
+
+(* ---------- a decision procedure for the hypotheses of a concrete history (used by the examples) ---------- *)
+Definition lop_esm_okb (o : lop) : bool :=
+  match o with
+  | VOp o' => negb (sender o' =? ESMA)
+  | Liquidate _ _ k => negb (k =? ESMA)
+  | Bid _ who _ _ _ _ _ => negb (who =? ESMA)
+  | _ => true
+  end.
+Definition eop_okb (e : estate) (o : eop) : bool :=
+  match o with
+  | ELife (EsmRedeem _) => true
+  | ELife o' => lop_okb (el e) o' && lop_esm_okb o'
+  | EDeposit f _ _ _ | ERedeem f _ _ _ => negb (f =? VAULT) && negb (f =? ESMA)
+  | _ => true
+  end.
+Fixpoint ehist_okb (c : cfg) (lc : lcfg) (ec : ecfg) (e : estate) (ops : list eop) : bool :=
+  match ops with
+  | [] => true
+  | o :: r => eop_okb e o && ehist_okb c lc ec (estep c lc ec e o) r
+  end.
+
+Lemma lop_esm_okb_sound o : lop_esm_okb o = true -> lop_esm_ok o.
+Proof. destruct o; cbn [lop_esm_okb lop_esm_ok]; intros H; try exact Logic.I; apply negb_true_iff in H; intros E; rewrite E in H; discriminate. Qed.
+Lemma eop_okb_sound e o : eop_okb e o = true -> eop_ok e o.
+Proof.
+  assert (K : forall f, negb (f =? VAULT) && negb (f =? ESMA) = true -> f <> VAULT /\ f <> ESMA).
+  { intros f H. apply andb_true_iff in H. destruct H as [H1 H2]. apply negb_true_iff in H1, H2. split; intros E; rewrite E in *; discriminate. }
+  destruct o as [o| | | | | | | | |]; cbn [eop_okb eop_ok]; intros H; try exact Logic.I; try exact (K _ H).
+  destruct o; try exact Logic.I; apply andb_true_iff in H; destruct H as [H1 H2]; (split; [exact (lop_okb_sound _ _ H1)|exact (lop_esm_okb_sound _ H2)]).
+Qed.
+Lemma ehist_okb_sound c lc ec ops : forall e, ehist_okb c lc ec e ops = true -> ehist_ok c lc ec e ops.
+Proof.
+  induction ops as [|o ops IH]; intros e H; cbn [ehist_okb ehist_ok] in *; [exact Logic.I|].
+  apply andb_true_iff in H. destruct H as [H1 H2]. split; [exact (eop_okb_sound e o H1)|exact (IH _ H2)].
 Qed.
